@@ -241,3 +241,50 @@ Definition fits (s : mrb) (sz : N) : Prop :=
    (tail s <= head s /\ head s + (4 + sz) + 4 + (if tail s =? 0 then 2 else 1) <= size s) \/
    (tail s <= head s /\ (4 + sz) + 2 <= tail s) \/
    (head s < tail s /\ head s + (4 + sz) + 2 <= tail s)).
+
+(* ================= specification-level definitions (used in the theorem statements) ============ *)
+Definition nlen (es : list (N * N)) : N := N.of_nat (length es).
+
+(* [a,e) is exactly tiled by the messages es = (payload offset, size), each preceded by
+   its 4-byte little-endian size *)
+Fixpoint SegE (b : list N) (a e : N) (es : list (N * N)) : Prop :=
+  match es with
+  | [] => a = e
+  | x :: r => fst x = a + 4 /\ snd x < 2147483648 /\ fst x + snd x <= e /\ rd_sz b a = snd x /\
+              SegE b (fst x + snd x) e r
+  end.
+
+(* representation invariant: es are the un-popped messages in order.  Either tail <= head and
+   [tail, head) is tiled by es (and 4 bytes for a wrap marker remain after head), or the queue
+   is wrapped: [tail, m) tiled by es1, a marker (bit 31 set) at m, [0, head) tiled by es2 *)
+Definition is_marker (b : list N) (m : N) : Prop := 2147483648 <= rd_sz b m.
+
+Definition Rep (s : mrb) (es : list (N * N)) : Prop :=
+  len (buf s) = size s /\ size s <= 2147483648 /\
+  ((tail s <= head s /\ (head s + 4 <= size s \/ head s = 0) /\ SegE (buf s) (tail s) (head s) es)
+   \/ (exists m es1 es2,
+         head s < tail s /\ tail s <= m /\ m + 4 <= size s /\ is_marker (buf s) m /\
+         SegE (buf s) (tail s) m es1 /\ SegE (buf s) 0 (head s) es2 /\ es2 <> [] /\ es = es1 ++ es2)).
+
+Definition MInv (s : mrb) : Prop := exists es, Rep s es /\ count s = nlen es.
+
+(* the region [p-4, p+sz) (length prefix and payload of the new message) does not meet
+   [o-4, o+z) for any un-popped message (o, z) *)
+Definition disjoint_from_live (s : mrb) (p sz : N) : Prop :=
+  Forall (fun x => p + sz + 4 <= fst x \/ fst x + snd x + 4 <= p) (extents s).
+
+(* guard for the function as it is in /repo: no message size in (capacity-8, capacity] *)
+Definition op_guard (B : N) (o : op) : Prop :=
+  match o with OAlloc d => len d + 8 <= B \/ B < len d | _ => True end.
+
+(* the three-operation program used to show that the guard is tight *)
+Definition misbehaves (al : mrb -> N -> res (mrb * option N)) (B sz : N) : bool :=
+  let prog := [OAlloc (repeat 7 (N.to_nat sz)); OPop; OAlloc []] in
+  match run al (init B) prog with
+  | Fault _ => true
+  | Ok (_, outs) => match fifo [] prog outs with None => true | Some _ => false end
+  end.
+
+(* example program: leaves a wrapped queue of capacity 48 holding three messages *)
+Definition ex_ops : list op :=
+  [OAlloc (repeat 1 10); OAlloc (repeat 2 10); OPop; OAlloc (repeat 3 10); OAlloc (repeat 4 2)].
